@@ -133,7 +133,7 @@ def lp_case(draw, max_items=8, with_cuts=True, small=False):
         if with_cuts and p == 2 and draw(st.integers(0, 19)) == 0:
             items.insert(draw(st.integers(0, len(items))), bytes(i % 251 for i in range(draw(st.sampled_from([256, 300, 65535])))))
     n = sum(len(i) + p for i in items)
-    case = {'items': [i.hex() for i in items], 'prefix': p, 'order': order}
+    case = {'items': [i.hex() for i in items], 'prefix': p, 'order': order, 'ctype': draw(st.sampled_from(['bytes', 'bytes', 'bytearray', 'recycled']))}
     if with_cuts:
         case['cuts'] = sorted(draw(st.lists(st.integers(0, n), max_size=8)))
         case['trunc'] = draw(st.one_of(st.none(), st.none(), st.integers(0, n)))
@@ -155,6 +155,9 @@ def _frame_lp(items, p, order):
     return frames
 
 
+CTYPE = ['bytes']        # how the byte chunks are handed to unframe (set per case)
+
+
 def _check_lp_stream(items, frames, stream, cuts, p, order):
     """stream may be a truncation of concat(frames)."""
     expected = []
@@ -166,7 +169,23 @@ def _check_lp_stream(items, frames, stream, cuts, p, order):
         else:
             break
     chunks = chunk(stream, cuts)
-    r = drive.collect(rx.from_(chunks).pipe(lp.unframe(prefix_size=p, byteorder=order)))
+    if CTYPE[0] == 'bytearray':
+        r = drive.collect(rx.from_([bytearray(c) for c in chunks]).pipe(lp.unframe(prefix_size=p, byteorder=order)))
+    elif CTYPE[0] == 'recycled':
+        # the chunks are views of ONE receive buffer that is overwritten as soon as the chunk has been handed over (recv_into):
+        # the items that come out must not alias it
+        from rx.subject import Subject
+        src = Subject()
+        r = drive.collect(src.pipe(lp.unframe(prefix_size=p, byteorder=order)), snap=False)
+        buf = bytearray(max([len(c) for c in chunks] + [1]))
+        for c in chunks:
+            buf[:len(c)] = c
+            src.on_next(memoryview(buf)[:len(c)])
+            buf[:] = b'\xaa' * len(buf)
+        src.on_completed()
+        r.items = [bytes(i) for i in r.items]
+    else:
+        r = drive.collect(rx.from_(chunks).pipe(lp.unframe(prefix_size=p, byteorder=order)))
     if r.error is not None or r.raised is not None:
         raise Violation('length_prefix.unframe signalled an error', result=r.brief(), chunks=chunks)
     if r.completed != 1 or r.after_end:
@@ -177,6 +196,7 @@ def _check_lp_stream(items, frames, stream, cuts, p, order):
 
 
 def check_lp(case):
+    CTYPE[0] = case.get('ctype', 'bytes')
     items = [h2b(i) for i in case['items']]
     p, order = case['prefix'], case['order']
     frames = _frame_lp(items, p, order)
@@ -211,6 +231,7 @@ def check_lp(case):
 
 
 def check_lp_allcuts(case):
+    CTYPE[0] = case.get('ctype', 'bytes')
     items = [h2b(i) for i in case['items']]
     p, order = case['prefix'], case['order']
     frames = _frame_lp(items, p, order)
@@ -226,6 +247,7 @@ def check_lp_allcuts(case):
 
 
 def check_lp_trunc(case):
+    CTYPE[0] = 'bytes'
     items = [h2b(i) for i in case['items']]
     p, order = case['prefix'], case['order']
     frames = _frame_lp(items, p, order)
